@@ -28,7 +28,7 @@ RULE = ('a directed canary module (unique tokens wrapped in < > & quotes, entity
 ASSUME = ['the control run differs from the hostile run only in characters that mean nothing to HTML, the markups or Python string syntax',
           'href/src values written by explicit link markup are attribute values chosen by the author (URL scheme policy is not judged)',
           'reST raw/include directives are excluded by the statement and not generated']
-DECIDING = {'directed_modules_parsed': 5, 'pages_strict_parsed': 300, 'pages_skeleton_compared': 200, 'canaries_seen_escaped': 300, 'docformats': 5, 'canary_positions': 30}
+DECIDING = {'directed_modules_parsed': 5, 'pages_strict_parsed': 300, 'pages_skeleton_compared': 200, 'canaries_seen_escaped': 300, 'docformats': 5, 'canary_positions': 30, 'entity_lookalikes_compared': 300}
 CPU_S = 1200
 
 HOSTILE = '<zq{n} a="1" onload=\'x\'>&zq{n};&lt;&#x3c;]]>--><!--<script>zq{n}</script>'
@@ -90,13 +90,13 @@ FIELDS = {
                     ivar='@ivar iv: d @@CAN26@@', cvar='@cvar @@CAN27@@: bad name', rtype='@rtype: @@CNQ32@@', inline='C{{@@CAN36@@}} B{{@@CAN37@@}} U{{label<http://example.com/@@CAQ70@@>}} U{{http://example.com/@@CAQ71@@}} L{{@@CAW74@@ <canpkg.mod.f>}} L{{@@CAW75@@ <nosuchtarget>}} U{{@@CAW76@@ <http://example.com/>}}'),
     'restructuredtext': dict(param=':param a: pa @@CAN17@@', typ=':type a: ``@@CNQ18@@``', badparam=':param @@CAN19@@: unknown param',
                              rais=':raise @@CAN20@@: exc @@CAN35@@', ret=':return: r @@CAN21@@', see=':see: @@CAN22@@', unk=':unknownfield @@CAN23@@: x',
-                             ivar=':ivar iv: d @@CAN26@@', cvar=':cvar @@CAN27@@: bad name', rtype=':rtype: @@CNQ32@@', inline='``@@CAN36@@`` **@@CAN37@@** `label <http://example.com/@@CAQ70@@>`_ http://example.com/@@CAQ71@@\n\n.. image:: http://example.com/x.png\n   :alt: alt @@CAQ72@@\n\n.. code-block:: bash\n\n   echo @@CAW90@@\n\n.. code:: json\n\n   {{"k": "@@CAW92@@"}}\n\n.. code:: python\n\n   x = "@@CAW93@@"\n\nTarget_ text.\n\n.. _Target: http://example.com/@@CAQ73@@'),
+                             ivar=':ivar iv: d @@CAN26@@', cvar=':cvar @@CAN27@@: bad name', rtype=':rtype: @@CNQ32@@', inline='``@@CAN36@@`` **@@CAN37@@** `label <http://example.com/@@CAQ70@@>`_ http://example.com/@@CAQ71@@ `label <http://example.com/@@CAQ77@@>` `label <https://example.com/x@@CAQ78@@ y>` `<ftp://example.com/@@CAQ79@@>`\n\n.. image:: http://example.com/x.png\n   :alt: alt @@CAQ72@@\n\n.. code-block:: bash\n\n   echo @@CAW90@@\n\n.. code:: json\n\n   {{"k": "@@CAW92@@"}}\n\n.. code:: python\n\n   x = "@@CAW93@@"\n\nTarget_ text.\n\n.. _Target: http://example.com/@@CAQ73@@'),
     'google': dict(param='Args:\n        a: pa @@CAN17@@\n        @@CAN19@@ (@@CNQ18@@): unknown param', typ='', badparam='',
                    rais='Raises:\n        @@CAN20@@: exc @@CAN35@@', ret='Returns:\n        r @@CAN21@@', see='See Also:\n        @@CAN22@@', unk='Note:\n        @@CAN23@@',
-                   ivar='Attributes:\n        iv: d @@CAN26@@\n        @@CAN27@@: bad name', cvar='', rtype='', inline='``@@CAN36@@`` **@@CAN37@@** `label <http://example.com/@@CAQ70@@>`_ http://example.com/@@CAQ71@@\n\n.. image:: http://example.com/x.png\n   :alt: alt @@CAQ72@@\n\n.. code-block:: bash\n\n   echo @@CAW90@@\n\n.. code:: json\n\n   {{"k": "@@CAW92@@"}}\n\n.. code:: python\n\n   x = "@@CAW93@@"'),
+                   ivar='Attributes:\n        iv: d @@CAN26@@\n        @@CAN27@@: bad name', cvar='', rtype='', inline='``@@CAN36@@`` **@@CAN37@@** `label <http://example.com/@@CAQ70@@>`_ http://example.com/@@CAQ71@@ `label <http://example.com/@@CAQ77@@>` `label <https://example.com/x@@CAQ78@@ y>` `<ftp://example.com/@@CAQ79@@>`\n\n.. image:: http://example.com/x.png\n   :alt: alt @@CAQ72@@\n\n.. code-block:: bash\n\n   echo @@CAW90@@\n\n.. code:: json\n\n   {{"k": "@@CAW92@@"}}\n\n.. code:: python\n\n   x = "@@CAW93@@"'),
     'numpy': dict(param='Parameters\n    ----------\n    a : @@CNQ18@@\n        pa @@CAN17@@\n    @@CAN19@@\n        unknown param', typ='', badparam='',
                   rais='Raises\n    ------\n    @@CAN20@@\n        exc @@CAN35@@', ret='Returns\n    -------\n    @@CNQ32@@\n        r @@CAN21@@', see='See Also\n    --------\n    @@CAN22@@', unk='Notes\n    -----\n    @@CAN23@@',
-                  ivar='Attributes\n    ----------\n    iv\n        d @@CAN26@@\n    @@CAN27@@\n        bad name', cvar='', rtype='', inline='``@@CAN36@@`` **@@CAN37@@** `label <http://example.com/@@CAQ70@@>`_ http://example.com/@@CAQ71@@\n\n.. image:: http://example.com/x.png\n   :alt: alt @@CAQ72@@\n\n.. code-block:: bash\n\n   echo @@CAW90@@\n\n.. code:: json\n\n   {{"k": "@@CAW92@@"}}\n\n.. code:: python\n\n   x = "@@CAW93@@"'),
+                  ivar='Attributes\n    ----------\n    iv\n        d @@CAN26@@\n    @@CAN27@@\n        bad name', cvar='', rtype='', inline='``@@CAN36@@`` **@@CAN37@@** `label <http://example.com/@@CAQ70@@>`_ http://example.com/@@CAQ71@@ `label <http://example.com/@@CAQ77@@>` `label <https://example.com/x@@CAQ78@@ y>` `<ftp://example.com/@@CAQ79@@>`\n\n.. image:: http://example.com/x.png\n   :alt: alt @@CAQ72@@\n\n.. code-block:: bash\n\n   echo @@CAW90@@\n\n.. code:: json\n\n   {{"k": "@@CAW92@@"}}\n\n.. code:: python\n\n   x = "@@CAW93@@"'),
     'plaintext': dict(param='@param a: pa @@CAN17@@', typ='', badparam='', rais='@@CAN20@@ @@CAN35@@', ret='@@CAN21@@', see='@@CAN22@@', unk='@@CAN23@@', ivar='@@CAN26@@',
                       cvar='@@CAN27@@', rtype='@@CNQ32@@', inline='@@CAN36@@ @@CAN37@@'),
 }
@@ -270,6 +270,11 @@ def skeleton(text: str) -> List[str]:
     return out
 
 
+def _visible(page: str) -> str:
+    import html as _html
+    return _html.unescape(re.sub(r'<[^>]*>', '', page))
+
+
 def compare_outputs(res: core.Res, label: str, hdir: str, cdir: str, w: Dict[str, Any]) -> None:
     hfiles = sorted(f for f in os.listdir(hdir) if f.endswith('.html'))
     cfiles = sorted(f for f in os.listdir(cdir) if f.endswith('.html'))
@@ -289,7 +294,17 @@ def compare_outputs(res: core.Res, label: str, hdir: str, cdir: str, w: Dict[str
         if f in cfiles:
             res.c('pages_skeleton_compared')
             hs = skeleton(text)
-            cs = skeleton(open(os.path.join(cdir, f), 'rb').read().decode('utf-8', 'replace'))
+            ctext = open(os.path.join(cdir, f), 'rb').read().decode('utf-8', 'replace')
+            cs = skeleton(ctext)
+            # the entity look-alikes of each canary are text: wherever the control page shows its '%zqN;%lt;%#x3c;', the hostile page
+            # must show '&zqN;&lt;&#x3c;' (read once as HTML), the same number of times
+            hvis, cvis = _visible(text), _visible(ctext)
+            for n_ in sorted(set(re.findall(r'%zq(\d+);%lt;%#x3c;', cvis))):
+                res.c('entity_lookalikes_compared')
+                hc, cc = hvis.count(f'&zq{n_};&lt;&#x3c;'), cvis.count(f'%zq{n_};%lt;%#x3c;')
+                if hc != cc:
+                    res.v('C10:entity-lookalike-not-shown-as-text', f'{label}: {f}: canary {n_}: the control page shows its entity look-alikes {cc} times, the hostile page shows '
+                          f'"&zq{n_};&lt;&#x3c;" {hc} times (the source text is displayed as other characters)', page=f, **w)
             if hs != cs:
                 i = next((j for j in range(min(len(hs), len(cs))) if hs[j] != cs[j]), min(len(hs), len(cs)))
                 res.v('C10:skeleton-differs', f'{label}: {f}: element/attribute structure differs from the control run at event {i}: hostile {hs[i:i + 3]} vs control {cs[i:i + 3]} (context {hs[max(0, i - 3):i]})'[:800],
